@@ -16,10 +16,14 @@ package model
 import (
 	"crypto/sha1"
 	"fmt"
+	"go/ast"
+	"go/constant"
+	"go/token"
 	"go/types"
 	"sort"
 	"strings"
 
+	"golang.org/x/tools/go/packages"
 	"golang.org/x/tools/go/ssa"
 )
 
@@ -169,4 +173,73 @@ func (m *Model) computeAliases() {
 	}
 	sort.Strings(notes)
 	m.AliasNotes = notes
+}
+
+// ConstTableLookup evaluates g[idx[0]][idx[1]]… for a package-level array/slice variable g whose
+// initialiser is a composite literal of constants (keyed or positional, nested). ok is false when
+// the variable has no such initialiser, an index is out of range or the entry is not a constant;
+// an entry that the literal leaves out is the zero value (reported as the integer 0).
+func (m *Model) ConstTableLookup(g *ssa.Global, idx []int64) (constant.Value, bool) {
+	var lit ast.Expr
+	var info *types.Info
+	for _, p := range []*packages.Package{m.Dec, m.Ctx} {
+		if p.Types != g.Pkg.Pkg {
+			continue
+		}
+		for _, f := range p.Syntax {
+			for _, d := range f.Decls {
+				gd, ok := d.(*ast.GenDecl)
+				if !ok || gd.Tok != token.VAR {
+					continue
+				}
+				for _, sp := range gd.Specs {
+					vs := sp.(*ast.ValueSpec)
+					for i, nm := range vs.Names {
+						if nm.Name == g.Name() && i < len(vs.Values) && p.TypesInfo.Defs[nm] == g.Object() {
+							lit, info = vs.Values[i], p.TypesInfo
+						}
+					}
+				}
+			}
+		}
+	}
+	if lit == nil {
+		return nil, false
+	}
+	cur := lit
+	for _, want := range idx {
+		cl, ok := cur.(*ast.CompositeLit)
+		if !ok {
+			return nil, false
+		}
+		var found ast.Expr
+		pos := int64(0)
+		for _, el := range cl.Elts {
+			if kv, ok := el.(*ast.KeyValueExpr); ok {
+				tv, ok := info.Types[kv.Key]
+				if !ok || tv.Value == nil {
+					return nil, false
+				}
+				k, ok := constant.Int64Val(constant.ToInt(tv.Value))
+				if !ok {
+					return nil, false
+				}
+				pos = k
+				el = kv.Value
+			}
+			if pos == want {
+				found = el
+			}
+			pos++
+		}
+		if found == nil {
+			return constant.MakeInt64(0), true // left out: zero value
+		}
+		cur = found
+	}
+	tv, ok := info.Types[cur]
+	if !ok || tv.Value == nil {
+		return nil, false
+	}
+	return tv.Value, true
 }
